@@ -1,8 +1,8 @@
 #!/bin/bash
-# usage: keep_r2.sh <prop> <a1|a2>   — round-2 defect seed from /tmp/sa2/out/<prop>/<name>: confirm (tools/confirm_seed.sh) using the
+# usage: [SA=/tmp/sa4 LET=u ROUND=4] keep_r2.sh <prop> <a1|a2>   — defect seed from $SA/out/<prop>/<name> (default: round 2, /tmp/sa2, letter t): confirm (tools/confirm_seed.sh) using the
 # demo location/command recorded in its meta.json and, when confirmed, store it as /verif/seeded/<prop>-t<k>/.
 P="$1"; N="$2"; K="${N#a}"
-SRC=/tmp/sa2/out/$P/$N
+SRC=${SA:-/tmp/sa2}/out/$P/$N; LET=${LET:-t}; ROUND=${ROUND:-2}
 [ -f "$SRC/patch.diff" ] || { echo "$P/$N: no patch"; exit 1; }
 read -r MOD DEST CMD < <(python3 - "$SRC/meta.json" <<'PY'
 import json,sys,shlex
@@ -31,15 +31,15 @@ OUT=$(eval /verif/tools/confirm_seed.sh "$SRC" "$MOD" "$DEST" $ARGS . 2>&1)
 echo "$P/$N: $OUT" | head -12
 V=$(echo "$OUT" | grep "^VERDICT")
 if echo "$V" | grep -q "existing_tests_exit=0 demo_with_change_exit=[1-9][0-9]* demo_without_change_exit=0"; then
-  D=/verif/seeded/$P-t$K; mkdir -p "$D"
+  D=/verif/seeded/$P-$LET$K; mkdir -p "$D"
   cp "$SRC/patch.diff" "$D/"; cp "$SRC"/*_test.go "$D/" 2>/dev/null
-  python3 - "$SRC/meta.json" "$D/meta.json" "$P" "$MOD" "$DEST" "$ARGS" "$V" <<'PY'
+  python3 - "$SRC/meta.json" "$D/meta.json" "$P" "$MOD" "$DEST" "$ARGS" "$V" "$ROUND" <<'PY'
 import json,sys
-src,dst,prop,mod,dest,args,verdict=sys.argv[1:8]
+src,dst,prop,mod,dest,args,verdict,rnd=sys.argv[1:9]
 m=json.load(open(src))
-out={"property":prop,"round":2,"summary":m.get("summary",""),"needs_to_manifest":m.get("needs_to_manifest",""),"files_changed":m.get("files_changed",[]),
+out={"property":prop,"round":int(rnd),"refactor_flavour":m.get("refactor_flavour",""),"summary":m.get("summary",""),"needs_to_manifest":m.get("needs_to_manifest",""),"files_changed":m.get("files_changed",[]),
  "demo_dir":dest,"demo_module_dir":mod,"demo_command":m.get("demo_command",""),
- "origin":"independent sub-agent (second round) given only the property text and a private worktree",
+ "origin":"independent sub-agent (round %s) given only the property text and a private worktree" % rnd,
  "confirmed_by_me":{"how":f"tools/confirm_seed.sh in a scratch worktree of /repo HEAD: git apply patch.diff; (cd {mod} && go build ./... && go vet ./... && go test -count=1 ./...); demo placed in {dest}; (cd {dest} && go test -count=1 {args} .) with the patch and again after git apply -R","result":verdict}}
 json.dump(out,open(dst,"w"),indent=1,ensure_ascii=False)
 PY
